@@ -8,6 +8,10 @@ use multiboot2::{
     StringError, TagHeader,
 };
 
+// exact-alignment, poisoning allocator (engine/checks/src/lib.rs)
+#[global_allocator]
+static A: ledger::Counting = ledger::Counting;
+
 type Generic = DynSizedStructure<TagHeader>;
 
 #[derive(Clone, Copy)]
